@@ -377,6 +377,27 @@ pub fn run_c07(o: &Opts) -> i32 {
     }
     let lref = &layouts;
     let mut streams: Vec<Stream> = Vec::new();
+    // extreme layouts first (one case) so that clamped interpreter runs always drive the RLE
+    // encoder/decoder to its limits: 16 / 8 RLE symbols, runs ending at the capacity, full RLE blocks
+    streams.push(Stream::new("hostile-layouts", 1, |_i, rng: &mut Rng, l: &mut Local| {
+        let mk = |parts: &[(u8, usize)]| -> Vec<u8> { parts.iter().flat_map(|&(s, n)| std::iter::repeat(s).take(n)).collect() };
+        let cases: Vec<Vec<u8>> = vec![
+            mk(&[(1, 64)]),
+            mk(&[(1, 63)]),
+            mk(&[(1, 4), (2, 4), (3, 4), (4, 4), (5, 4), (6, 4), (7, 4), (8, 4), (9, 4), (10, 4), (11, 4), (12, 4), (13, 4), (14, 4), (15, 4), (16, 4)]),
+            mk(&[(9, 1), (1, 63)]),
+            mk(&[(9, 3), (1, 61)]),
+            mk(&[(1, 61), (9, 3)]),
+            mk(&[(1, 32), (2, 32)]),
+            mk(&[(0, 7), (63, 7), (0, 7), (63, 7), (0, 7), (63, 7), (0, 7), (63, 7), (0, 8)]),
+            (0..64).map(|i| i as u8).collect(),
+            vec![],
+        ];
+        for c in cases {
+            let hv = HV { log: 30, bh1: c.clone(), bh2: c };
+            check_c07(l, &hv, rng);
+        }
+    }));
     streams.push(Stream::new("every-run-4..64-at-every-position", layouts.len() as u64 * 2, move |i, rng: &mut Rng, l: &mut Local| {
         let (pos, len) = lref[(i / 2) as usize];
         let sym = if i % 2 == 0 { 0u8 } else { 37 };
